@@ -115,13 +115,13 @@ Proof. apply covers_safe. apply chrome_roomy_covered. Qed.
 Lemma chrome_roomy_example :
   let a := advertised advenf_spec_Chrome_146_IPv4 in
   play a (enforced cfg_roomy)
-    [EvData 2 6291456; EvData 1 6291456; EvData 0 3145728; EvOpen 2 102; EvOpen 1 99; EvCID 1; EvDgram 1454;
+    [EvData 2 6291456; EvData 1 6291456; EvData 0 3145728; EvOpen 2 102; EvOpen 1 99; EvCID 1; EvDgram 1434;
      EvSilence 29999999999 0 0; EvGrant KConn 20000000; EvGrant KSD0 9000000; EvData 0 4271272; EvRetireCID; EvCID 1] = Fine.
 Proof. reflexivity. Qed.
 
-(** The record vs. the wire: two GREASE draws differ *)
-Lemma record_wire_bytes_can_differ :
-  exists o1 o2 ps, Forall wf_param ps /\ override_bytes o1 ps <> wire_bytes o2 ps.
+(** Regression, old shape: record and wire were two marshalings; two GREASE draws differ *)
+Lemma old_record_wire_bytes_can_differ :
+  exists o1 o2 ps, Forall wf_param ps /\ override_bytes_old o1 ps <> wire_bytes o2 ps.
 Proof.
   exists (fun _ _ => [0;0;0;1; 10;10;10;10; 0;0;0;1]), (fun _ _ => [0;0;0;1; 26;10;10;10; 0;0;0;1]),
          [(4, [128;240;0;0]); (16741339, [0;0;0;1; 10;10;10;10; 0;0;0;1])].
@@ -129,3 +129,39 @@ Proof.
   - repeat constructor; vm_compute; intuition congruence.
   - vm_compute. congruence.
 Qed.
+
+(** * The repaired spec-driven client: every built-in parrot, EVERY Config *)
+
+Definition parrot_ok (kv : list (Z * Z)) : Prop :=
+  forall (raw : config),
+    covers (advertised kv) (enforced_spec (advertised kv) (populate raw)) /\
+    forall h code, play (advertised kv) (enforced_spec (advertised kv) (populate raw)) h <> Err code.
+
+Lemma valid_parrot_ok kv : spec_valid (advertised kv) -> parrot_ok kv.
+Proof. intros V raw. split; [apply spec_covers, V | apply spec_client_ok, V]. Qed.
+
+Ltac valid := apply valid_parrot_ok; vm_compute; repeat split; congruence.
+
+Lemma Chrome_115_IPv4_ok : parrot_ok advenf_spec_Chrome_115_IPv4. Proof. valid. Qed.
+Lemma Chrome_115_IPv6_ok : parrot_ok advenf_spec_Chrome_115_IPv6. Proof. valid. Qed.
+Lemma Chrome_146_IPv4_ok : parrot_ok advenf_spec_Chrome_146_IPv4. Proof. valid. Qed.
+Lemma Chrome_146_IPv6_ok : parrot_ok advenf_spec_Chrome_146_IPv6. Proof. valid. Qed.
+Lemma Firefox_116A_ok : parrot_ok advenf_spec_Firefox_116A. Proof. valid. Qed.
+Lemma Firefox_116B_ok : parrot_ok advenf_spec_Firefox_116B. Proof. valid. Qed.
+Lemma Firefox_116C_ok : parrot_ok advenf_spec_Firefox_116C. Proof. valid. Qed.
+
+Lemma all_parrots_valid : Forall (fun kv => spec_valid (advertised kv)) advenf_all_specs.
+Proof. unfold advenf_all_specs. repeat constructor; vm_compute; congruence. Qed.
+
+(* the old witnesses are now played to the end: default Config, the 10 s idle Config, the
+   50-stream Config *)
+Definition old_witnesses (a : limits) : list (list ev) :=
+  [w_max_data a; w_sd_bl a; w_sd_br a; w_sd_uni a; w_s_bidi a; w_s_uni a; w_cid a; w_dgram a].
+
+Lemma old_witnesses_now_fine :
+  Forall (fun kv =>
+    let a := advertised kv in
+    Forall (fun h => play a (enforced_spec a default_config) h = Fine) (old_witnesses a) /\
+    play a (enforced_spec a cfg_idle10s) (w_idle (enforced cfg_idle10s)) = Fine /\
+    play a (enforced_spec a cfg_streams50) (w_s_bidi a) = Fine) advenf_all_specs.
+Proof. unfold advenf_all_specs. repeat constructor. Qed.
